@@ -28,6 +28,7 @@ MANIFEST = {
             "a zero-length write may report either success or buffer-too-small.",
 }
 MANIFEST["text"] += " Support headers are also generated for c++20 and c++17-pmr and with the command line's --trim-blocks / --lstrip-blocks; the Python driver writes and reads every ordered pair of special float values back to back and all 65,536 halves in increasing and scrambled order."
+MANIFEST["text"] += ' C++ support headers are also generated for little and big target endianness.'
 
 HERE = os.path.join(common.VERIF, "vlib", "c14")
 
